@@ -391,10 +391,26 @@ type OracleC12 struct {
 	counters
 	t         *DisputeTracker
 	prevVoter map[string]disputetypes.Voter
+	teamAt    map[uint64]string // dispute id -> team address when the dispute was first seen
 }
 
 func NewOracleC12(t *DisputeTracker) *OracleC12 {
-	return &OracleC12{counters: newCounters(), t: t, prevVoter: map[string]disputetypes.Voter{}}
+	return &OracleC12{counters: newCounters(), t: t, prevVoter: map[string]disputetypes.Voter{}, teamAt: map[uint64]string{}}
+}
+
+// teamRotatedOntoVoter: the input-level condition of the open finding "team-address-changed-after-its-vote" — the
+// address that is the team now has a voter record on this dispute although it was not the team when the dispute
+// began (or no team-weight vote was counted): its ordinary vote is then read as the team's vote by the tally.
+func (o *OracleC12) teamRotatedOntoVoter(b *BlockCtx, v *View, d DisputeInfo, cnt disputetypes.StakeholderVoteCounts) bool {
+	has, err := b.Ref.App.DisputeKeeper.Voter.Has(v.ctx, collections.Join(d.D.DisputeId, []byte(v.TeamAddr())))
+	if err != nil || !has {
+		return false
+	}
+	if cnt.Team.Support+cnt.Team.Against+cnt.Team.Invalid == 0 {
+		return true
+	}
+	first, ok := o.teamAt[d.D.DisputeId]
+	return ok && first != string(v.TeamAddr())
 }
 func (o *OracleC12) ID() string { return "C12" }
 
@@ -412,6 +428,9 @@ func (o *OracleC12) AfterBlock(c *Chain, b *BlockCtx) []*Violation {
 	for _, id := range o.t.ids() {
 		d := o.t.cur[id]
 		p, had := o.t.prev[id]
+		if _, seen := o.teamAt[id]; !seen {
+			o.teamAt[id] = string(v.TeamAddr())
+		}
 		if !had {
 			if d.D.DisputeStatus != disputetypes.Prevote && d.D.DisputeStatus != disputetypes.Voting && !(d.D.DisputeStatus == disputetypes.Resolved || d.D.DisputeStatus == disputetypes.Unresolved) {
 				out = append(out, o.v(b.H, "lifecycle", "Disputes", "bad-initial-status", "dispute %d appears with status %s", id, d.D.DisputeStatus))
@@ -689,10 +708,8 @@ func (o *OracleC12) checkTally(c *Chain, b *BlockCtx, v *View, d DisputeInfo, cn
 	if !greyQ && quorum != isQuorumRes {
 		cls := "quorum-label"
 		// diagnosis: the address that is the team NOW voted on this dispute as an ordinary account before it became the team
-		if cnt.Team.Support+cnt.Team.Against+cnt.Team.Invalid == 0 {
-			if has, err := b.Ref.App.DisputeKeeper.Voter.Has(v.ctx, collections.Join(d.D.DisputeId, []byte(v.TeamAddr()))); err == nil && has {
-				cls += ":team-address-changed-after-its-vote"
-			}
+		if o.teamRotatedOntoVoter(b, v, d, cnt) {
+			cls += ":team-address-changed-after-its-vote"
 		}
 		out = append(out, o.v(b.H, "tally", "TallyVote", cls, "dispute %d: participation sum is %s (quorum at 0.51 => %v) but the result is labelled %s (counters users %v of %s, reporters %v of %s, holders %v of %s, team %v)", d.D.DisputeId, part.FloatString(6), quorum, res, cnt.Users, totalTips, cnt.Reporters, totalRep, cnt.Tokenholders, supply, cnt.Team))
 	}
@@ -724,10 +741,8 @@ func (o *OracleC12) checkTally(c *Chain, b *BlockCtx, v *View, d DisputeInfo, cn
 	}
 	if !ok {
 		cls := "wrong-majority"
-		if cnt.Team.Support+cnt.Team.Against+cnt.Team.Invalid == 0 {
-			if has, err := b.Ref.App.DisputeKeeper.Voter.Has(v.ctx, collections.Join(d.D.DisputeId, []byte(v.TeamAddr()))); err == nil && has {
-				cls = "wrong-majority:team-address-changed-after-its-vote"
-			}
+		if o.teamRotatedOntoVoter(b, v, d, cnt) {
+			cls = "wrong-majority:team-address-changed-after-its-vote"
 		}
 		if isQuorumRes && cls == "wrong-majority" {
 			cls = "wrong-majority-with-quorum"
